@@ -109,12 +109,13 @@ class H5SliceData(Dataset):
                 self.logger.info("Attempting to load %s filenames from list(s).", len(filenames))
             else:
                 self.logger.info("Parsing directory %s for h5 files.", self.root)
-                filenames = list(self.root.glob("*.h5"))
+                filenames = sorted(self.root.glob("*.h5"))
         else:
             self.logger.info("Attempting to load %s filenames.", len(filenames_filter))
             filenames = filenames_filter
 
-        filenames = [pathlib.Path(_) for _ in filenames]
+        # A file can only be one volume: drop repeated names (e.g. from overlapping lists), keeping the first.
+        filenames = list(dict.fromkeys(pathlib.Path(_) for _ in filenames))
 
         if regex_filter:
             filenames = [_ for _ in filenames if re.match(regex_filter, str(_))]
